@@ -111,6 +111,15 @@ def discharge(ob: Obligation, tier="quick"):
                 return dict(verdict="discharged", backend="cvc5", seconds=time.time() - t0, reason="; ".join(tried), model=None)
         except Exception as ex:
             tried.append(f"cvc5-error:{ex}")
+    # 5a. exact counter-model for equalities whose normal form is non-zero (free functions, abs/sign)
+    if all(isinstance(c, sp.Eq) for c in conj) and any(t.startswith("qqnf:nonzero") for t in tried):
+        try:
+            r5 = B.refute_by_point([c.lhs - c.rhs for c in conj], list(ob.hyps) + [sp.Gt(x_, 0) for x_ in ob.positive])
+            if r5 is not None:
+                return dict(verdict="refuted", backend="qqnf+point", seconds=time.time() - t0,
+                            reason="; ".join(tried) + f"; conjunct #{r5['index']}: lhs-rhs = {r5['value']} at an exact rational point", model=r5["model"])
+        except Exception as ex:
+            tried.append(f"point-error:{type(ex).__name__}:{ex}")
     # 5. separating rational point for pure polynomial equalities
     if all(isinstance(c, sp.Eq) for c in conj):
         try:
